@@ -2880,3 +2880,64 @@ func E9TangentBothWays(c *core.Ctx, r *core.Report) {
 	r.Count("E9.tangent-operands", n)
 	r.Floor("E9.tangent-operands", 2)
 }
+
+// E9CopyDropsStatusNode: a struct copy of a sweep point does not keep the original's place in the status.
+func E9CopyDropsStatusNode(c *core.Ctx, r *core.Report) {
+	r.Rule("E9.copy-drops-status-node", "a SweepPoint's `node` field is its place in the sweep status (a tree node that points back at that one point), and `node != nil` is how the sweep asks whether a left end point is in the status. SweepPoint.SplitAt creates the end points of the second half by struct copy; the copy of the receiver — the left end point that is in the status — becomes the left end point of a segment that is only queued, so its `node` is cleared (assigned) in the same function. Otherwise two points claim one status node, and the guard of splitAtIntersections for a segment that `was already in the sweep status` fires on legal input: three edges through one non-vertex point make all five operations panic")
+	p := c.MustPkg("")
+	info := p.TypesInfo
+	n := 0
+	for _, fd := range core.AllFuncDecls(p) {
+		if !strings.HasSuffix(c.Fset.Position(fd.Pos()).Filename, "path_intersection.go") || fd.Recv == nil || core.RecvName(fd) != "SweepPoint" {
+			continue
+		}
+		recv := recvObj(info, fd)
+		// copies `*A = *recv` (also inside a tuple assignment)
+		var copies []types.Object
+		ast.Inspect(fd.Body, func(m ast.Node) bool {
+			as, ok := m.(*ast.AssignStmt)
+			if !ok || len(as.Lhs) != len(as.Rhs) {
+				return true
+			}
+			for i, l := range as.Lhs {
+				ls, ok1 := l.(*ast.StarExpr)
+				rs, ok2 := core.Unparen(as.Rhs[i]).(*ast.StarExpr)
+				if !ok1 || !ok2 {
+					continue
+				}
+				lid, ok1 := core.Unparen(ls.X).(*ast.Ident)
+				rid, ok2 := core.Unparen(rs.X).(*ast.Ident)
+				if ok1 && ok2 && core.ObjOf(info, rid) == recv {
+					copies = append(copies, core.ObjOf(info, lid))
+				}
+			}
+			return true
+		})
+		for _, cp := range copies {
+			n++
+			key := fmt.Sprintf("canvas.SweepPoint.%s|copy `%s` of the receiver gives up the status node", fd.Name.Name, cp.Name())
+			cleared := false
+			ast.Inspect(fd.Body, func(m ast.Node) bool {
+				as, ok := m.(*ast.AssignStmt)
+				if !ok {
+					return true
+				}
+				for _, l := range as.Lhs {
+					if se, ok := l.(*ast.SelectorExpr); ok && se.Sel.Name == "node" {
+						if id, ok := core.Unparen(se.X).(*ast.Ident); ok && core.ObjOf(info, id) == cp {
+							cleared = true
+						}
+					}
+				}
+				return true
+			})
+			if cleared {
+				r.OK("E9.copy-drops-status-node", key, c.Pos(fd.Pos()), "")
+			} else {
+				r.Fail("E9.copy-drops-status-node", key, c.Pos(fd.Pos()), "the copy keeps the receiver's `node`: the new point is only queued, but `node != nil` reports it as being in the sweep status")
+			}
+		}
+	}
+	r.Count("E9.status-node-copies", n)
+	r.Floor("E9.status-node-copies", 1)
+}
